@@ -306,6 +306,7 @@ type world struct {
 	fsc   *internalsys.FSContext
 	dir   string
 	log   []ioRec
+	slept []int64
 	pages uint32
 	ms    uint64
 	sock  bool
@@ -338,7 +339,7 @@ func newWorld(ctx context.Context, e *engine, pages uint32, sock bool) (*world, 
 	lfs := &logFS{FS: sysfs.DirFS(w.dir), log: &w.log}
 	cfg := wazero.NewModuleConfig().WithName("").WithArgs(args...).
 		WithStdin(&logReader{left: 100, log: &w.log}).WithStdout(&logWriter{&w.log}).WithStderr(&logWriter{&w.log}).
-		WithRandSource(patRand{}).WithNanosleep(func(int64) {}).
+		WithRandSource(patRand{}).WithNanosleep(func(ns int64) { w.slept = append(w.slept, ns) }).
 		WithFSConfig(wazero.NewFSConfig().(expsysfs.FSConfig).WithSysFSMount(lfs, "/"))
 	for _, kv := range environ {
 		cfg = cfg.WithEnv(kv[0], kv[1])
@@ -452,6 +453,7 @@ type Case struct {
 	ArgLens  []int       `json:"arglens"`
 	EnvLens  []int       `json:"envlens"`
 	OutVal   uint64      `json:"outval"` // little-endian value at the last result pointer after the call (when readable)
+	Slept    []int64     `json:"slept"`  // every duration the call handed to the configured sleep function (ns)
 }
 
 type placer struct {
@@ -532,6 +534,7 @@ func (w *world) call(ctx context.Context, tag, fn string, a []uint64, place func
 	cs.Tbl = w.table()
 	cs.Tcap = w.fsc.ZZCap()
 	w.log = w.log[:0]
+	w.slept = w.slept[:0]
 	if fn == "sock_accept" && w.sock && !w.dial() {
 		// no pending connection could be made: accepting on the (blocking) listener would wait forever
 		if f, ok := w.fsc.LookupFile(int32(uint32(a[0]))); ok {
@@ -566,6 +569,7 @@ func (w *world) call(ctx context.Context, tag, fn string, a []uint64, place func
 		cs.Res = result{Kind: "errno"}
 	}
 	cs.Log = append([]ioRec(nil), w.log...)
+	cs.Slept = append([]int64{}, w.slept...)
 	if w.mem != nil {
 		post, _ := w.mem.Read(0, uint32(w.ms))
 		if uint64(len(post)) != w.ms {
